@@ -6,6 +6,9 @@ CONSTANTS
   ScriptSizes = {20}
   FeatSizes = {14}
   EmitCases = TRUE
+  Types = {0}
+  ExtType = 7
+  Recognised = {0}
   Fix28 = FALSE
 INIT Init
 NEXT Next
